@@ -31,6 +31,8 @@ def display_into(I, ctx, sink, v, raw_ty=''):
         return False
     if isinstance(v0, bool):
         sink.extend(BV(b, 8) for b in (b'true' if v0 else b'false')); return True
+    if isinstance(v0, Agg) and v0.name == 'ParseFloatError':
+        sink.extend(BV(c, 8) for c in (b'cannot parse float from empty string' if v0.fields[0] else b'invalid float literal')); return True
     if isinstance(v0, Agg) and v0.name not in ('tuple', 'f64', 'Option', 'OpaqueFmt'):
         fm = Agg('Formatter', [sink, True])
         tgt = I.resolve_static(ctx.cur_crate, f'<{v0.name} as Display>::fmt') or I.resolve_static(ctx.cur_crate, f'<{v0.name} as std::fmt::Display>::fmt')
@@ -460,8 +462,13 @@ def _(I, ctx, it): return TUPLE(BV(0, 64), NONE())
 @model('re:^<.* as (std::iter::)?ExactSizeIterator>::len$')
 def _(I, ctx, it):
     it0 = deref(it)
-    if isinstance(it0, ListIt): return BV(it0.j - it0.i, 64)
-    raise Unsupported('len of iterator')
+    def ln(x):
+        if isinstance(x, ListIt): return x.j - x.i
+        if isinstance(x, MapIt): return ln(x.it)          # map / cloned / copied keep the length
+        if isinstance(x, EnumIt): return ln(x.it)
+        if isinstance(x, RevIt): return ln(x.it)
+        raise Unsupported('len of iterator ' + type(x).__name__)
+    return BV(ln(it0), 64)
 @model('re:^(std::iter::|core::iter::)?(repeat_n|repeat_n::<.*>)$', 'std::iter::repeat_n', 'core::iter::repeat_n')
 def _(I, ctx, v, n): return ListIt([copy_value(v) for _ in range(ctx.concretize(n))])
 @model('re:^(std::iter::|core::iter::)once$')
@@ -757,7 +764,7 @@ def _(I, ctx, r):
             plain = z3.Or(z3.And(z3.UGE(x.z(), 48), z3.ULE(x.z(), 57)), x.z() == 46, z3.And(z3.UGE(x.z(), 97), z3.ULE(x.z(), 100)), x.z() == 102, x.z() == 95) if not x.conc() \
                 else (48 <= x.e <= 57 or x.e in (46, 102, 95) or 97 <= x.e <= 100)
             if not ctx.branch(plain): raise Unsupported('f64 parse of text outside the modelled alphabet [0-9a-df._]')
-        return ERR(Agg('ParseFloatError', []))
+        return ERR(Agg('ParseFloatError', [len(b) == 0]))
     m = re.search(r'parse::<(\w+)>', raw)
     if m and m.group(1) in INT_BITS:
         if all(x.conc() for x in b):
@@ -1252,7 +1259,7 @@ def _(I, ctx, e, f):
 @model('re:^<(std::collections::)?(Fnv)?HashMap<.*> as (std::ops::)?Index<.*>>::index$')
 def _(I, ctx, m, k):
     m0 = deref(m); i = m0.find(I, ctx, deref(k))
-    if i is None: raise Panic('HashMap index: key not found')
+    if i is None: raise Panic('HashMap index: key not found: ' + repr(deref(k))[:80] + ' keys=' + repr(m0.keys)[:200])
     return ElemRef(m0.vals, i)
 
 
